@@ -77,6 +77,9 @@ class Reshape(Harness):
             on = list(choice("ocols", [("a",), ("b", "a"), ("c",), ("c", "b")]))
             nn = choice("on", [n, 1] if n > 1 else [n])     # a one-row frame is broadcast (only to nrow >= 1)
             inp["others"] = [frame_of(ctx, "o", on, kinds, nn)]
+            if m == "cbind" and choice("second_other", [False, True]):
+                on2 = list(choice("ocols2", [("c", "a"), ("b",), ("c",)]))
+                inp["others"].append(frame_of(ctx, "p", on2, kinds, n))
         elif m == "modify":
             vals = []
             for nm in choice("targets", [("a",), ("z",), ("b", "z"), ("z", "a")]):
@@ -153,18 +156,21 @@ class Reshape(Harness):
                                        obj_isna(oc.cells[off + r]) if ok == "O" else isna(oc.cells[off + r], ok)))
                     off += sz
         elif m in ("cbind", "update"):
-            other = inp["others"][0]
-            on = len(next(iter(other.cols.values())))
+            frames = [data] + inp["others"]
             if m == "cbind":
-                want = data.names + [x for x in other.names if x not in data.names]
+                want = list(dict.fromkeys(x for f in frames for x in f.names))
+                owner = {nm: next(f for f in frames if nm in f.cols) for nm in want}       # first of duplicate names
             else:
+                other = inp["others"][0]
                 want = [x for x in data.names if x not in other.names] + other.names
+                owner = {nm: (other if nm in other.cols else data) for nm in want}
             cl.append((f"columns are {want}", T(res.names == want)))
             if res.names != want: return cl
             for nm in want:
-                src = data if (nm in data.cols and (m == "cbind" or nm not in other.cols)) else other
+                src = owner[nm]
                 ic = src.cols[nm]; oc = res.cols[nm]
-                if src is other and on == 1 and n != 1:
+                on = len(ic)
+                if src is not data and on == 1 and n != 1:
                     cl.append((f"{nm}: one-row frame broadcast to nrow", T(len(oc) == n and oc.dtype == ic.dtype)))
                     if len(oc) == n and oc.dtype == ic.dtype:
                         for r in range(n):
